@@ -232,6 +232,11 @@ def _openfile(instance, filething, filename, fileobj, writable, create):
                 raise TypeError("expected __fspath__() to return a filename")
         else:
             filename = filething
+    elif hasattr(filename, "__fspath__"):
+        # a path object given through the filename keyword
+        filename = filename.__fspath__()
+        if not isinstance(filename, (bytes, str)):
+            raise TypeError("expected __fspath__() to return a filename")
 
     if instance is not None:
         # XXX: take "not writable" as loading the file..
